@@ -139,6 +139,11 @@ package main
 //@   assert at call:applyRemovals: arg(1) == !forced
 //@   assert at call:indexRepositories: arg(1).DryRun == !forced
 //@   assert at call:indexRepositories: arg(1).Incremental
+// faithfulness: apart from DryRun, the indexing options of a preview are those of
+// the -f run - each one comes from the parsed command line, none depends on -f
+//@   assert at call:indexRepositories: arg(1).AllowMissingBranch == config.allowMissing && arg(1).Submodules == config.submodules && arg(1).BranchPrefix == config.branchPrefix
+//@   assert at call:indexRepositories: arg(1).BuildOptions.SizeMax == config.buildOptions.SizeMax && arg(1).BuildOptions.TrigramMax == config.buildOptions.TrigramMax && arg(1).BuildOptions.ShardMax == config.buildOptions.ShardMax && arg(1).BuildOptions.Parallelism == config.buildOptions.Parallelism
+//@   assert at call:indexRepositories: arg(1).BuildOptions.DisableCTags == config.buildOptions.DisableCTags && arg(1).BuildOptions.CTagsMustSucceed == config.buildOptions.CTagsMustSucceed && arg(1).BuildOptions.IndexDir == config.buildOptions.IndexDir && arg(1).BuildOptions.LargeFiles == config.buildOptions.LargeFiles
 //@   guard call:applyRemovals by nilerr:discoverRepositories && nilerr:readInventory
 //@   guard call:indexRepositories by nilerr:discoverRepositories && nilerr:readInventory
 //@   ensures !forced ==> fsTouched == old(fsTouched)
